@@ -59,7 +59,7 @@ def stateBytes (st : Array UInt32) : Bytes :=
     [(w >>> 24).toUInt8, (w >>> 16).toUInt8, (w >>> 8).toUInt8, w.toUInt8]
 
 def pad (len : Nat) : List UInt8 :=
-  let zeros := (55 - (len % 64) + 64) % 64
+  let zeros := (119 - len % 64) % 64
   let bitlen := len * 8
   (0x80 : UInt8) :: (List.replicate zeros 0 ++ beBytes 8 bitlen)
 
